@@ -226,6 +226,16 @@ def run(ctx: core.Ctx):
         if not same(zref, zd):
             ctx.fail("zonal.mean", dict(chunks=str(ch)), "differs", "identical to the in-memory result")
 
+    zones2 = xr.DataArray(((np.arange(cube.shape[1] * cube.shape[2]) + 1) % 3).reshape(cube.shape[1:]).astype("uint8"), dims=("y", "x"), attrs={"nodata": 255})
+    zref2 = base.hdc.zonal.mean(zones2, [0, 1, 2])
+    lazy_a = base.chunk({"time": 4}).hdc.zonal.mean(zones, [0, 1, 2], name="zonal")
+    lazy_b = base.chunk({"time": 4}).hdc.zonal.mean(zones2, [0, 1, 2], name="zonal")
+    ra, rb = dask.compute(lazy_a, lazy_b)
+    ctx.case(("zonal-joint",))
+    ctx.count("zonal joint evaluation")
+    if not (same(zref, ra) and same(zref2, rb)):
+        ctx.fail("zonal.mean", dict(config="two named lazy results with different zone rasters evaluated in one dask graph"), "one result replaced the other", "each equals its own in-memory result")
+
     # prange kernel: bit-identical for every thread count
     from hdc.algo.ops.ws2doptvplc import ws2doptvplc_tyx
     big, _ = make_cube(rng, 24, 9, 7)
